@@ -64,6 +64,33 @@ def perturb(desc, rng, feats=None):
     return desc
 
 
+SPECIAL_TEXT = ["\u0085", "\u2028", "\u2029", "\t", " ", "\u00a0", "\ufeff", "'", '"', ": ", " #", "\\", "\u007f", "\u200b", "é", "\U0001f600"]
+
+
+def perturb_text(desc, rng, feats=None):
+    """text strings with characters that text formats treat specially (line breaks of every kind, leading / trailing blanks, quotes,
+    comment and mapping indicators), and language maps whose component entries come before their manifest-level text keys"""
+    feats = feats if feats is not None else set()
+    if isinstance(desc, dict):
+        out = {}
+        for k, v in desc.items():
+            if k.startswith("suit-text-") and isinstance(v, str) and rng.random() < 0.3:
+                ch = rng.choice(SPECIAL_TEXT)
+                pos = rng.choice(["start", "end", "middle"])
+                v = ch + v if pos == "start" else (v + ch if pos == "end" else v[: len(v) // 2] + ch + v[len(v) // 2:])
+                feats.add("text:special-character")
+            out[k] = perturb_text(v, rng, feats)
+        keys = list(out)
+        if len(keys) >= 2 and any(k.startswith("suit-text-") for k in keys) and any(k.startswith("[") for k in keys) and rng.random() < 0.6:
+            rng.shuffle(keys)
+            out = {k: out[k] for k in keys}
+            feats.add("text:component-entry-before-text-key")
+        return out
+    if isinstance(desc, list):
+        return [perturb_text(v, rng, feats) for v in desc]
+    return desc
+
+
 LAST_CHILDREN = []   # descriptions of the children / encryption infos materialised as files by the last make_case
 
 
@@ -125,8 +152,8 @@ def run_cli_create(desc, files, fmt):
     old = os.getcwd()
     try:
         os.chdir(d)
-        if os.path.exists(outp):
-            os.unlink(outp)
+        from . import common as _c
+        _c.make_stale(outp)
         cmd_create.main(input_file=inp, input_format="AUTO", output_file=outp)
         with open(outp, "rb") as fh:
             return {"ok": fh.read().hex()}
